@@ -233,7 +233,8 @@ Record rcase := mkRCase {
   rc_events : list event;   (* observed, in channel order *)
   rc_closed : bool;         (* channel closed within 5 s of the cancel *)
   rc_unknown : nat;         (* update events whose id is outside the universe *)
-  rc_marks : list nat       (* number of events received when the i-th step after the sync began *)
+  rc_marks : list nat;      (* number of events received when the i-th step after the sync began *)
+  rc_selfclosed : bool      (* the channel closed BEFORE the harness cancelled the context *)
 }.
 
 Definition omem (id : oid) (l : list oid) : bool := existsb (oid_eqb id) l.
@@ -260,12 +261,21 @@ Definition reporter_agree (c : rcase) : bool :=
 Definition has_fail (steps : list rstep) : bool :=
   existsb (fun s => match s with SFail => true | _ => false end) steps.
 
+Fixpoint fail_before_sync (steps : list rstep) : bool :=
+  match steps with
+  | [] => false
+  | SFail :: _ => true
+  | SSync :: _ => false
+  | _ :: t => fail_before_sync t
+  end.
+
 (* mutations issued before the first cancel *)
 Fixpoint live_muts (steps : list rstep) : list mutation :=
   match steps with
   | [] => []
   | SMut m :: t => m :: live_muts t
   | SCancel :: _ => []
+  | SFail :: _ => []
   | _ :: t => live_muts t
   end.
 
@@ -274,7 +284,7 @@ Fixpoint live_muts (steps : list rstep) : list mutation :=
 Definition expected_statuses (c : rcase) (id : oid) : list status :=
   match lookup (cluster_of (rc_pre c)) id with Some p => [p_status p] | None => [] end ++
   flat_map (fun m => match m with
-                     | MAdd k p | MUpdate k p => if oid_eqb k id then [p_status p] else []
+                     | MAdd k p | MUpdate k p => if oid_eqb k id && negb (p_slow p) then [p_status p] else []
                      | MDelete k => if oid_eqb k id then [SNotFound] else []
                      end) (live_muts (rc_steps c)).
 
@@ -346,7 +356,12 @@ Definition reporter_monitor (c : rcase) : bool :=
   forallb (fun e => match e with EUpdate id _ => omem id (c_watched cfg) | _ => true end) evs &&
   Nat.leb (count_syncs evs) 1 && Nat.leb (count_errors evs) 1 &&
   if has_fail (rc_steps c)
-  then Nat.eqb (count_errors evs) 1 && Nat.eqb (count_syncs evs) 0
+  then
+    (* a fatal failure happened: exactly one error event is reported and the
+       watcher stops by itself, whatever benign cancellations came before; no
+       sync event if the failure precedes the sync *)
+    Nat.eqb (count_errors evs) 1 && rc_selfclosed c &&
+    (negb (fail_before_sync (rc_steps c)) || Nat.eqb (count_syncs evs) 0)
   else
     Nat.eqb (count_errors evs) 0 && Nat.eqb (count_syncs evs) 1 &&
     mon_stopped cfg evs [] (drop_to_sync (rc_steps c)) (rc_marks c) &&
